@@ -238,6 +238,56 @@ def standardAttempts (a : Args) (s : SSHArgs) (khLoads keyLoads : Bool) (verdict
   | .error _ => []
   | .ok cfg => if hostKeyAccepted cfg.policy verdict then attemptsUntil accepts cfg.auth else []
 
+/-! ### the configured identity and how a server answers it -/
+
+/-- `offered_methods_spec`: the auth methods `openBase` configures, as a function of the
+configuration alone: the key (iff a key path is set) BEFORE password and keyboard-interactive
+(iff a password is set).  `standardCfg` installs exactly this list (`standard_policy`). -/
+def configuredMethods (a : Args) (s : SSHArgs) : List AuthMethod :=
+  (if s.privateKeyPath ≠ [] then [AuthMethod.publicKey s.privateKeyPath] else [])
+  ++ (if a.password ≠ [] then [.password a.password, .keyboardInteractive a.password] else [])
+
+def AuthMethod.isPublicKey : AuthMethod → Bool
+  | .publicKey _ => true
+  | _ => false
+
+def AuthMethod.isPassword : AuthMethod → Bool
+  | .password _ => true
+  | _ => false
+
+/-- what the server does with credentials -/
+inductive ServerPolicy
+  /-- every method is available; a credential is good iff `accepts` says so -/
+  | anyOf (accepts : AuthMethod → Bool)
+  /-- two steps: only `publickey` is available at first; a good key is a PARTIAL success after
+  which only `password` is available and required -/
+  | keyThenPassword (keyOk pwOk : Bool)
+
+/-- the crypto/ssh client loop against such a server (observed behaviour of `clientAuthenticate`:
+methods are tried in configuration order among those the server lists; a failed method is not
+retried): the credentials offered, in order, and the one that completed authentication -/
+def authRun : ServerPolicy → List AuthMethod → List AuthMethod × Option AuthMethod
+  | .anyOf accepts, l => (attemptsUntil accepts l, l.find? accepts)
+  | .keyThenPassword keyOk pwOk, l =>
+    match l.find? AuthMethod.isPublicKey with
+    | none => ([], none)
+    | some k =>
+      if !keyOk then ([k], none)
+      else match l.find? AuthMethod.isPassword with
+        | none => ([k], none)
+        | some w => ([k, w], if pwOk then some w else none)
+
+/-- `Open` against a server with the given policy: outcome and credentials offered -/
+def standardOpenP (a : Args) (s : SSHArgs) (khLoads keyLoads : Bool) (verdict : KhVerdict)
+    (p : ServerPolicy) : Outcome × List AuthMethod :=
+  match standardCfg a s khLoads keyLoads with
+  | .error e => (.cfgError e, [])
+  | .ok cfg =>
+    if !hostKeyAccepted cfg.policy verdict then (.hostKeyRejected, [])
+    else match authRun p cfg.auth with
+      | (offered, some m) => (.established cfg.user m, offered)
+      | (offered, none) => (.authFailed, offered)
+
 /-! ### connections in sequence
 
 `openBase` reads the known-hosts file anew for every connection (`knownhosts.New`), so what the
@@ -267,6 +317,17 @@ structure Conn where
   kh : KhContent
   keyLoads : Bool
   accepts : AuthMethod → Bool
+  /-- `some (keyOk, pwOk)`: the server runs the two-step policy instead of `accepts` -/
+  multi : Option (Bool × Bool) := none
+
+def Conn.policy (c : Conn) : ServerPolicy :=
+  match c.multi with
+  | some (k, p) => .keyThenPassword k p
+  | none => .anyOf c.accepts
+
+/-- outcome and offered credentials of one connection under its server's policy -/
+def standardConnP (c : Conn) : Outcome × List AuthMethod :=
+  standardOpenP c.a c.s c.kh.loads c.keyLoads c.kh.verdict c.policy
 
 def standardConn (c : Conn) : Outcome :=
   standardOpen c.a c.s c.kh.loads c.keyLoads c.kh.verdict c.accepts
